@@ -420,7 +420,22 @@ class ArrayType(TypeBase):
                     "unexpected number of parts in dimension spec '%s'"
                     % dim)
 
-    INDEX_VAR_COUNTER = 0
+    @staticmethod
+    def _index_vars_in(type_):
+        """Return the index variable names used by *type_* and the types
+        nested inside of it."""
+        if isinstance(type_, ArrayType):
+            return (set(type_.index_vars)
+                    | ArrayType._index_vars_in(type_.element_type))
+        elif isinstance(type_, PointerType):
+            return ArrayType._index_vars_in(type_.pointee_type)
+        elif isinstance(type_, StructureType):
+            result = set()
+            for _, member_type in type_.members:
+                result |= ArrayType._index_vars_in(member_type)
+            return result
+        else:
+            return set()
 
     def __init__(self, dimension, element_type, index_vars=None):
         self.element_type = element_type
@@ -431,11 +446,18 @@ class ArrayType(TypeBase):
         if isinstance(index_vars, str):
             index_vars = tuple(iv.strip() for iv in index_vars.split(","))
         elif index_vars is None:
-            def get_index_var():
-                ArrayType.INDEX_VAR_COUNTER += 1
-                return "i%d" % ArrayType.INDEX_VAR_COUNTER
-
-            index_vars = tuple(get_index_var() for d in dimension)
+            # The default names only need to differ from those of the types
+            # nested inside of this one. (They must not depend on what else
+            # was constructed in this process: they end up in generated code.)
+            taken = ArrayType._index_vars_in(element_type)
+            index_vars = []
+            counter = 0
+            for _ in dimension:
+                counter += 1
+                while "i%d" % counter in taken:
+                    counter += 1
+                index_vars.append("i%d" % counter)
+            index_vars = tuple(index_vars)
 
         if len(index_vars) != len(dimension):
             raise ValueError("length of 'index_vars' does not match length "
